@@ -2,6 +2,7 @@ SPECIFICATION GenSpec
 CONSTANTS
   MaxSrv = 3
   MaxCli = 2
+  ReqBuf = 16
   Cfgs <- AllCfgs
   Lite = "full"
 VIEW AbsView
